@@ -115,6 +115,10 @@ func (f *protoFile) messageDesc(m *message) (*descriptorpb.DescriptorProto, erro
 		if fl.Number > 1<<31-1 || fl.Number < -(1<<31) {
 			return nil, fmt.Errorf("message field %q.%s has an invalid number: %d", m.Name, fl.Name, fl.Number)
 		}
+		if fl.Number >= 19000 && fl.Number <= 19999 {
+			// protoc refuses these itself (protodesc does not): reserved for the protocol buffer implementation
+			return nil, fmt.Errorf("message field %q.%s: field numbers 19000 through 19999 are reserved for the protocol buffer library implementation", m.Name, fl.Name)
+		}
 		fd := &descriptorpb.FieldDescriptorProto{Name: proto.String(fl.Name), Number: proto.Int32(int32(fl.Number)),
 			Label: descriptorpb.FieldDescriptorProto_LABEL_OPTIONAL.Enum()}
 		switch fl.Label {
